@@ -292,7 +292,7 @@ DecidePoll(a) ==
 
 DecideEndSession(a) ==
   LET h == a.hint
-      hintOK == h.kind \in {"valid", "expired"} /\ Has(idts, h.id)
+      hintOK == h.kind \in {"valid", "expired", "multiaud"} /\ Has(idts, h.id) /\ ~(cfg.dyn /\ a.host = "B")
       badHint == h.kind # "none" /\ ~hintOK
       client == IF hintOK THEN idts[h.id].client ELSE a.client
       redirect(target, sub, c) == [NoOut EXCEPT !.class = "redirect", !.status = 302, !.target = target,
@@ -444,8 +444,8 @@ DeviceAuthorizeArgs == {[caller |-> cc[1], cred |-> cc[2], scopes |-> s] : cc \i
 PollArgs == {[caller |-> cc[1], cred |-> cc[2], dc |-> d, slow |-> s] : cc \in CallerCreds, d \in DOMAIN devs \cup {"d0"}, s \in BOOLEAN}
 
 EndSessionArgs ==
-  LET hints == {[kind |-> "none", id |-> "none"]} \cup [kind : {"valid", "expired", "wrongkey", "wrongiss", "algnone"}, id : DOMAIN idts] IN
-  [hint : hints, client : {"", "cw", "cx", "cz"}, uri : {"", "plcw", "plcx", "evil"}, state : {"", "ls1"}]
+  LET hints == {[kind |-> "none", id |-> "none"]} \cup [kind : {"valid", "expired", "multiaud", "wrongkey", "wrongiss", "algnone"}, id : DOMAIN idts] IN
+  [hint : hints, client : {"", "cw", "cx", "cz"}, uri : {"", "plcw", "plcx", "evil"}, state : {"", "ls1"}, host : IF cfg.dyn THEN {"A", "B"} ELSE {"A"}]
 
 RefArgs ==
   LET none == [kind |-> "none", form |-> "none", id |-> "none", declared |-> "none"]
@@ -544,6 +544,7 @@ Init ==
               cc : IF "caps" \in Vary THEN BOOLEAN ELSE {TRUE},
               te : IF "caps" \in Vary THEN BOOLEAN ELSE {TRUE},
               dev : IF "caps" \in Vary THEN BOOLEAN ELSE {TRUE},
+              dyn : IF "dyn" \in Vary THEN BOOLEAN ELSE {FALSE},
               policy : IF "policy" \in Vary
                        THEN [deny : BOOLEAN, defType : {"", "refresh"}, imp : {"", "u2"}, drop : {"email"}]
                        ELSE {[deny |-> FALSE, defType |-> "", imp |-> "", drop |-> ""]}]
